@@ -21,7 +21,7 @@ use crate::runner::*;
 use crate::src::Src;
 use crate::syn::{gen_sentence, mutate};
 
-pub const RULE: &str = "cases (expression, typed input) answered by the same driver built under {default, sync, specialized, specialized+sync}: expressions from the core, typed-function and mutation generators (valid, invalid, failing); inputs of every specially handled type (serde_json::Value / &Value, Variable / &Variable, Rcvar / &Rcvar, String, &str, every integer width at its extremes, isize / usize, f32, f64, bool, unit) and generic Serialize types (struct, Vec, tuple, Option, map); oracle = all four answers identical (converted value, compile outcome, search value or error class + offset) and, inside each build, to_jmespath equal to Variable::from_serializable of the same input; non-trivial = the input goes through a specialised scalar / string / Variable / Value conversion or contains an integer outside i64 (distinct by case line)";
+pub const RULE: &str = "cases (expression, typed input) answered by the same driver built under {default, sync, specialized, specialized+sync}: expressions from the core, typed-function and mutation generators (valid, invalid, failing) and expressions nested 20..120 levels deep; inputs of every specially handled type (serde_json::Value / &Value, Variable / &Variable, Rcvar / &Rcvar, String, &str, every integer width at its extremes, isize / usize, f32, f64, bool, unit) and generic Serialize types (struct, Vec, tuple, Option, map); oracle = all four answers identical (converted value, compile outcome, search value or error class + offset) and, inside each build, to_jmespath equal to Variable::from_serializable of the same input; non-trivial = the input goes through a specialised scalar / string / Variable / Value conversion or contains an integer outside i64 (distinct by case line)";
 
 #[derive(Serialize)]
 struct Gen {
